@@ -305,6 +305,47 @@ Section Local.
     rewrite (e_lg _ _ _ _ E). apply wf_group_lt; [exact (e_wf _ _ _ _ E)|exact Hi'].
   Qed.
 
+  Lemma image_members_length r g : g < g_count p ->
+    length (members_with_role pM (Some r) (nth g fg 0)) = length (members_with_role p (Some r) g).
+  Proof. intros Hg. now rewrite (Permutation_length (mwr_perm (Some r) g Hg)), map_length. Qed.
+
+  (** value_from_person(array, role) for a unique role *)
+  Lemma vfp_local xM r :
+    role_max (g_entity p) r = Some 1 -> role_unique_in p r -> role_unique_in pM r ->
+    length xM = npersons pM ->
+    exists sM, value_from_person pM xM r 0%Z = Ok sM /\ length sM = g_count pM
+               /\ value_from_person p (gather fp xM) r 0%Z = Ok (gather fg sM).
+  Proof.
+    intros Hmax U UM Hl. unfold value_from_person.
+    rewrite (value_from_person_ok _ pM xM r 0%Z (e_wfM _ _ _ _ E) (ordered_members_map_sorting pM) Hl);
+      [|rewrite (e_ent _ _ _ _ E); exact Hmax|exact UM].
+    rewrite (value_from_person_ok _ p (gather fp xM) r 0%Z (e_wf _ _ _ _ E) (ordered_members_map_sorting p)
+               (gather_fp_length xM Hl) Hmax U).
+    eexists. split; [reflexivity|]. split; [now rewrite map_length, seq_length|]. f_equal.
+    symmetry. apply group_map_emb. intros g Hg.
+    pose proof (mwr_perm (Some r) g Hg) as P. pose proof (U g Hg) as Ug.
+    destruct (members_with_role p (Some r) g) as [|i [|i' l]] eqn:Em.
+    - cbn [map] in P. apply Permutation_sym, Permutation_nil in P. rewrite P. reflexivity.
+    - cbn [map] in P. apply Permutation_sym, Permutation_length_1_inv in P. rewrite P.
+      symmetry. apply nth_image; [exact Hl|]. apply (mwr_lt p (Some r) g). rewrite Em. now left.
+    - cbn [length] in Ug. lia.
+  Qed.
+
+  Lemma vfp_not_unique (xM x : list Z) r : role_max (g_entity p) r <> Some 1 ->
+    value_from_person pM xM r 0%Z = Err EOther /\ value_from_person p x r 0%Z = Err EOther.
+  Proof.
+    intros H. unfold value_from_person, value_from_person_with. rewrite (e_ent _ _ _ _ E).
+    destruct (role_max (g_entity p) r) as [[|[|n]]|]; try (split; reflexivity). now contradiction H.
+  Qed.
+
+  Lemma vfp_nil r : exists e,
+    value_from_person pM ([] : list Z) r 0%Z = Err e /\ value_from_person p ([] : list Z) r 0%Z = Err e.
+  Proof.
+    unfold value_from_person, value_from_person_with, check_size. rewrite (e_ent _ _ _ _ E). cbn [length].
+    pose proof posM. destruct (npersons pM) eqn:E1; [lia|]. destruct (npersons p) eqn:E2; [lia|].
+    destruct (role_max (g_entity p) r) as [[|[|k]]|]; eexists; split; reflexivity.
+  Qed.
+
   (** An array of the wrong size is refused in both populations. *)
   Lemma sum_nil role : sum pM [] role = Err EValue /\ sum p [] role = Err EValue.
   Proof.
